@@ -32,6 +32,7 @@ import (
 	"errors"
 	"fmt"
 	"math/rand"
+	"os"
 	"regexp"
 	"runtime"
 	"sort"
@@ -70,6 +71,11 @@ var forwardSteps = []time.Duration{time.Nanosecond, time.Microsecond, time.Milli
 
 var backwardSteps = []time.Duration{-time.Nanosecond, -time.Microsecond, -time.Millisecond,
 	-3 * time.Millisecond, -5 * time.Millisecond}
+
+// skipReadback (self-test aid only, never set by the check): switches off the
+// two "last-repeated equals the model's time" comparisons so that a mutant can be
+// shown to be caught by the delivery oracle alone.
+var skipReadback = os.Getenv("VERIF_C08_SKIP_READBACK") == "1"
 
 // anchor of the virtual clock: the real current time truncated to a second,
 // without monotonic reading.
@@ -330,6 +336,10 @@ func (h *hist) doAdd(a addSpec) (k entryKey, newOrRepeated bool) {
 		h.violation("C08:add:rejected-valid-notice", map[string]interface{}{"add": fmt.Sprintf("%+v", a), "error": err.Error()})
 		return k, false
 	}
+	var prevLR time.Time
+	if pe := h.m.entries[k]; pe != nil {
+		prevLR = pe.lastRepeated
+	}
 	e, eff, isNew, repeated, bumped := h.m.add(h.clock, k, a.RA)
 	c.Count("adds", 1)
 	switch {
@@ -377,10 +387,15 @@ func (h *hist) doAdd(a addSpec) (k entryKey, newOrRepeated bool) {
 		return k, false
 	}
 	c.Count("add_readbacks", 1)
-	if !view[0].LastRepeated.Equal(e.lastRepeated) {
-		sub := "repeat-decision"
-		if bumped {
-			sub = "not-strictly-after-previous-timestamp"
+	if !skipReadback && !view[0].LastRepeated.Equal(e.lastRepeated) {
+		// either the other branch of the repeat decision was taken (the value is
+		// the previous last-repeated or the occurrence time) or the occurrence
+		// time itself is not what the timestamp rule gives
+		sub := "occurrence-time-differs"
+		if !isNew && (view[0].LastRepeated.Equal(prevLR) || view[0].LastRepeated.Equal(eff)) {
+			sub = "repeat-decision-differs"
+		} else if bumped {
+			sub = "occurrence-time-not-strictly-after-previous-notice"
 		}
 		h.violation("C08:add:last-repeated:"+sub, map[string]interface{}{
 			"notice": k.String(), "json_last_repeated": off(view[0].LastRepeated), "model_last_repeated": off(e.lastRepeated),
@@ -447,7 +462,7 @@ func (h *hist) judge(cl *client, got []jn, via string) {
 			bad = true
 		}
 		seen[k] = true
-		if !n.LastRepeated.Equal(e.lastRepeated) {
+		if !skipReadback && !n.LastRepeated.Equal(e.lastRepeated) {
 			h.violation("C08:poll:last-repeated-differs-from-model", wit(map[string]interface{}{"offending": n.brief(), "model_last_repeated": off(e.lastRepeated)}))
 			bad = true
 		}
@@ -676,9 +691,29 @@ func runSeq(c *kit.Check, idx int) {
 	if h.nSameTickEffective > 0 && h.nSuppressed > 0 && h.nDelivered > 0 {
 		c.Nontrivial(kit.Sig(sigParts...))
 	}
+	if idx >= 2 {
+		return
+	}
 	c.Sample(map[string]interface{}{"part": "seq", "case_index": idx, "params": params,
 		"new_or_repeated": h.nNewOrRep, "not_repeated": h.nSuppressed, "bumped_new_or_repeated": h.nSameTickEffective,
 		"delivered": h.nDelivered, "first_events": firstN(h.log, 12)})
+}
+
+func lastN(s []string, n int) []string {
+	if len(s) > n {
+		s = s[len(s)-n:]
+	}
+	return append([]string(nil), s...)
+}
+
+func firstAdds(a []concAdd, n int) []string {
+	var out []string
+	for i := 0; i < len(a) && i < n; i++ {
+		x := a[i]
+		out = append(out, fmt.Sprintf("user=%d type=%s key=%s repeat-after=%s clock-step=%s probe=%d cancel-waiter=%d",
+			x.Add.User, x.Add.Type, x.Add.Key, x.Add.RA, x.Add.Step, x.Probe, x.Cancel))
+	}
+	return out
 }
 
 func firstN(s []string, n int) []string {
@@ -918,8 +953,8 @@ func runConc(c *kit.Check, idx int, baseline map[int64]bool) bool {
 		}
 	}
 
-	var wg sync.WaitGroup   // adders + pollers
-	var wgW sync.WaitGroup  // waiters
+	var wg sync.WaitGroup  // adders + pollers
+	var wgW sync.WaitGroup // waiters
 	start := make(chan struct{})
 
 	for i, w := range waiters {
@@ -1180,6 +1215,16 @@ func runConc(c *kit.Check, idx int, baseline map[int64]bool) bool {
 	if atomic.LoadInt64(&nObligations) > 0 {
 		c.Nontrivial(kit.Sig("conc", kit.JSON(plan)))
 	}
+	if idx < 1000002 {
+		var wf []filterSpec
+		for _, w := range plan.Waiters {
+			wf = append(wf, w.Filter)
+		}
+		c.Sample(map[string]interface{}{"part": "conc", "case_index": idx, "keys": plan.Keys, "prefill": plan.Prefill,
+			"adders": len(plan.Adders), "pollers": len(plan.Pollers), "waiter_filters": wf,
+			"first_adds_of_adder0": firstAdds(plan.Adders[0], 4),
+			"wake_obligations":     atomic.LoadInt64(&nObligations), "last_events": lastN(h.log, 14)})
+	}
 	return true
 }
 
@@ -1255,7 +1300,7 @@ func TestVerifC08(t *testing.T) {
 		}
 	}
 	c.Note("conc_wall_s", time.Since(tConc).Seconds()) // informational only
-	state.MockTime(time.Now())() // restore timeNow = time.Now
+	state.MockTime(time.Now())()                       // restore timeNow = time.Now
 	c.Floor("adds_new", 500)
 	c.Floor("adds_repeated", 500)
 	c.Floor("adds_not_repeated", 200)
